@@ -52,11 +52,24 @@ def new_db(kind="posc"):
     return db
 
 
+def clear_caches(db):
+    """Empty the database's memo tables so that a reused database starts cold.  The tables are implementation
+    details (one of them private): when the tree under test names them differently, answer False and let the
+    caller build a fresh database instead - never fail on a rename."""
+    tables = [getattr(db, "quantities_cache", None), getattr(db, "_category_unit_valid", None)]
+    if any(not isinstance(t, dict) for t in tables):
+        return False
+    for t in tables:
+        t.clear()
+    return True
+
+
 def reset_globals():
     """State cached at class level that is bound to whichever database was current."""
     from barril.units import Quantity
 
-    Quantity._EMPTY_QUANTITY = None
+    if hasattr(Quantity, "_EMPTY_QUANTITY"):
+        Quantity._EMPTY_QUANTITY = None
 
 
 @contextlib.contextmanager
